@@ -13,11 +13,14 @@ Explored on the real code (`rigid` stream): energy invariance, gradient covarian
 torque, connectivity and force field rebuilt from moved coordinates — at offsets up to 1e4 Å.
 * zero net torque of every term's translated gradient about each coordinate axis through the origin (by differentiating
   the invariance along the one-parameter rotation groups) — together with zero net force this is zero torque about any point.
-Not proved (explored only): the rotation covariance of the gradient as a theorem, and float-level invariance.
+* rotation covariance of every term's translated gradient: at the rotated geometry it is the rotated gradient, atom by
+  atom (`Lemmas/Covariance.lean`: differentiate the invariance along straight lines; torsion: regularity is an open condition).
+Not proved (explored only): float-level invariance.
 -/
 import OptRs.Lemmas.Translate
 import OptRs.Lemmas.Rotate
 import OptRs.Lemmas.Torque
+import OptRs.Lemmas.Covariance
 import OptRs.Model.Perceive
 namespace OptRs.Props.C03
 open OptRs OptRs.Lemmas OptRs.Model.Energy OptRs.Gen
@@ -91,6 +94,29 @@ every regular point. -/
 theorem net_torque_zero_of_invariance (k : KindSpec) (ρ : Nat → ℝ) (hρ : k.Regular ρ)
     (hinv : ∀ (c : Fin 3) (t : ℝ), k.E.evalR (rotEnv k.na (rotAxis c t) ρ) = k.E.evalR ρ) :
     TorqueFree k.na ρ (k.G.gradR ρ) := net_torque_zero k ρ hρ hinv
+
+/-! ### Rotation covariance of the gradient -/
+
+/-- **Per term**: for every proper rotation `R` and every regular geometry, the translated gradient at the rotated geometry
+is the rotated gradient: `g_a(Rx) = R g_a(x)` for each atom `a` of the term. -/
+theorem term_gradient_covariant (R : Rot) (ρ : Nat → ℝ) (n : Nat) :
+    (PairRegular ρ → ∀ a < 2, Spec.atom (bondGrad.gradR (rotEnv 2 R ρ)) a = rotV R (Spec.atom (bondGrad.gradR ρ) a)) ∧
+    (PairRegular ρ → ∀ a < 2, Spec.atom (ljGrad.gradR (rotEnv 2 R ρ)) a = rotV R (Spec.atom (ljGrad.gradR ρ) a)) ∧
+    (PairRegular ρ → ∀ a < 2, Spec.atom ((repulsionGrad n).gradR (rotEnv 2 R ρ)) a = rotV R (Spec.atom ((repulsionGrad n).gradR ρ) a)) ∧
+    (BendRegular ρ → ρ 21 ≠ 0 → ∀ a < 3, Spec.atom (angleAGrad.gradR (rotEnv 3 R ρ)) a = rotV R (Spec.atom (angleAGrad.gradR ρ) a)) ∧
+    (BendRegular ρ → ∀ a < 3, Spec.atom (angleBGrad.gradR (rotEnv 3 R ρ)) a = rotV R (Spec.atom (angleBGrad.gradR ρ) a)) ∧
+    (TorsionRegular ρ → ∀ a < 4, Spec.atom (torsionGrad.gradR (rotEnv 4 R ρ)) a = rotV R (Spec.atom (torsionGrad.gradR ρ) a)) ∧
+    (InversionRegular ρ → ∀ a < 4, Spec.atom (inversionGrad.gradR (rotEnv 4 R ρ)) a = rotV R (Spec.atom (inversionGrad.gradR ρ) a)) :=
+  ⟨fun h a ha => bond_grad_covariant R ρ h a ha, fun h a ha => lj_grad_covariant R ρ h a ha,
+   fun h a ha => repulsion_grad_covariant n R ρ h a ha, fun h hn a ha => angleA_grad_covariant R ρ h hn a ha,
+   fun h a ha => angleB_grad_covariant R ρ h a ha, fun h a ha => torsion_grad_covariant R ρ h a ha,
+   fun h a ha => inversion_grad_covariant R ρ h a ha⟩
+
+/-- Non-vacuity: the bond kind at a concrete geometry under the quarter turn about z — atom 0's gradient `(gx, gy, gz)`
+becomes `(−gy, gx, gz)`. -/
+example (ρ : Nat → ℝ) (h : PairRegular ρ) :
+    Spec.atom (bondGrad.gradR (rotEnv 2 quarterTurnZ ρ)) 0 = rotV quarterTurnZ (Spec.atom (bondGrad.gradR ρ) 0) :=
+  bond_grad_covariant quarterTurnZ ρ h 0 (by norm_num)
 
 /-! ### Perception -/
 
